@@ -133,6 +133,8 @@ class RV:
         r = self.ref
         if name not in r.groups:
             raise Unspec("unknown group attribute")
+        if name in getattr(r, "unordered_groups", ()):
+            raise Unspec("view of a group created from an unsorted view (member order unspecified)")
         members = [n for n in sorted(r.groups[name]) if n in set(self.N)]
         if not members:
             raise Reject("nothing in view")
@@ -397,10 +399,14 @@ class RefModule:
                 self.currents.remove(cur)
 
     def add_to_group(self, rv, name):
+        unordered = self.__dict__.setdefault("unordered_groups", set())
         if name not in self.groups and list(rv.N) != sorted(rv.N):
-            # jaxley stores the first view's order and sorts from the second call on: the order of a group
-            # view is not specified by anything, so such groups are not generated and nothing is asserted
-            raise Unspec("group created from an unsorted view (member order unspecified)")
+            # jaxley stores the first view's order and sorts from the second call (and from any set_ncomp) on: the
+            # *membership* is well defined, the order of a view made from the group is not — such a group can be
+            # created, re-discretised and extended, but selecting through it is unspecified until it was sorted
+            unordered.add(name)
+        else:
+            unordered.discard(name)
         self.groups[name] = sorted(set(self.groups.get(name, [])) | set(rv.N))
 
     def record(self, rv, state):
@@ -642,6 +648,7 @@ class RefModule:
                 out += list(range(start, start + n))
             newgroups[g] = sorted(out)
         self.groups = newgroups
+        self.__dict__.setdefault("unordered_groups", set()).clear()  # set_ncomp stores every group sorted
         self.n = len(self.cell)
         return {"start": start, "old_k": old_k, "n": n}
 
